@@ -1093,10 +1093,28 @@ func cmdC03(seed int64, tier, outDir string) {
 				}
 			}
 			r.Shuffle(len(all), func(i, j int) { all[i], all[j] = all[j], all[i] })
-			// deletions first in a fair share
+			// quick: a sample with an equal share of deletions and insertions; thorough: all of them
 			nm := muts
 			if tier == "thorough" && len(all) < 400 {
 				nm = len(all)
+			} else {
+				var dels, inss, mix []mut
+				for _, m := range all {
+					if m.del {
+						dels = append(dels, m)
+					} else {
+						inss = append(inss, m)
+					}
+				}
+				for i := 0; i < len(dels) || i < len(inss); i++ {
+					if i < len(dels) {
+						mix = append(mix, dels[i])
+					}
+					if i < len(inss) {
+						mix = append(mix, inss[i])
+					}
+				}
+				all = mix
 			}
 			if nm > len(all) {
 				nm = len(all)
